@@ -385,7 +385,9 @@ class Folder:
             if len(args) == 2: return args[1]
             raise _Raise('StopIteration')
         if isinstance(f, FuncConst): return self.call(f, args, kw)
-        if isinstance(f, tuple) and f[0] == 'recmeth': return self.call(f[2], [f[1]] + args, kw)
+        if isinstance(f, tuple) and f[0] == 'recmeth':
+            static = any(isinstance(d, ast.Name) and d.id == 'staticmethod' for d in f[2].node.decorator_list)
+            return self.call(f[2], ([] if static else [f[1]]) + args, kw)
         if isinstance(f, tuple) and f[0] == 'recbound': return getattr(f[1], f[2])(*args, **kw)
         if isinstance(f, type) and issubclass(f, tuple) and hasattr(f, '_fields'): return f(*args, **kw)
         if getattr(f, '__self__', None) is not None and isinstance(f.__self__, type) and hasattr(f.__self__, '_fields') \
